@@ -7,13 +7,6 @@ rc=0
 for p in $(python3 -c "import json;print(' '.join(c['property_id'] for c in json.load(open('MANIFEST.json'))['checks']))"); do
   r=$(./check $p --tier quick 2>&1 | tail -1 | cut -c1-160); echo "$r"; case "$r" in OK*) ;; *) rc=1;; esac
 done
-python3 - <<'PY' || rc=1
-import json,glob,sys
-bad=0
-for f in sorted(glob.glob('evidence/*.json')):
-    d=json.load(open(f)); c=d['coverage']
-    if c['obligations']!=c['discharged'] or d['violations']!=0 or d['tier']!='quick' or d['seed']!=1:
-        print('BAD',f); bad=1
-sys.exit(bad)
-PY
+PY=python3; command -v python3-vt >/dev/null 2>&1 && PY=python3-vt   # python3-vt has jsonschema: the schema is validated too
+$PY tools/validate_evidence.py || rc=1
 exit $rc
